@@ -19,6 +19,7 @@ INVARIANT C14_StorePublished
 INVARIANT C01_ManifestExact
 INVARIANT C0109_ServedIsContent
 INVARIANT C04_TopSettled
+INVARIANT C09_ParentSyncKept
 INVARIANT C01_TopValid
 INVARIANT TaExactlyOnce
 INVARIANT RpMatches
